@@ -11,6 +11,7 @@ HEADER = 'From WM Require Import Base.Prelude Router.Close Router.CloseMonitor C
 FIX5 = True
 FIX6 = True
 FIX12 = True
+FIX16 = True
 
 def hno(s): return int(s[1:])
 
@@ -200,7 +201,7 @@ def map_scenario(sc):
 
 def r_case_term(sc, mp):
     hon = C.coq_list([C.coq_bool(h['honour']) for h in sc['handlers']])
-    return '(RC %d %s %s %s %s %s)' % (len(sc['handlers']), hon, C.coq_bool(FIX5), C.coq_bool(FIX6), C.coq_bool(FIX12),
+    return '(RC %d %d %s %s %s %s %s %s)' % (len(sc['handlers']), sc.get('unstarted', 0), hon, C.coq_bool(FIX5), C.coq_bool(FIX6), C.coq_bool(FIX12), C.coq_bool(FIX16),
                                         C.coq_list(['(%s, %s)' % lo for lo in mp.labels]))
 
 def m_case_term(sc, mp):
@@ -250,7 +251,7 @@ TRUSTED_BASE = [
     'subscriber contract of the model: the channel closes after Close() was called or (ctx-honouring subscribers) after the Subscribe context ended; whether and when the subscriber\'s Close() RETURNS is an environment choice (it may block for ever); handlersLock is folded into closedLock '
     '(AddHandler/RunHandlers/Stop concurrent with Close are outside the model: C10)',
     'the stamp discipline (acquire: stamp after; release: stamp before; close(closingInProgressCh) placed as late as the log allows; pump steps without a hook inserted as late as possible) and the Python mapper checks/c06.py',
-    'Router/CloseMonitor.v mon_run is an executable oracle on the implementation history (not proved equivalent to the model theorems); it is also evaluated on the MODEL\'s own trace of every replayed schedule (must accept for the repaired variant) and proved to reject the D5/D12 witness traces',
+    'Router/CloseMonitor.v mon_run judges the implementation history; it is PROVED to accept every API trace of the repaired model (C06_acceptor_accepts_model) and to reject the D5/D12 witness traces; the mapping of hook stamps to API events is trusted',
 ]
 ASSUMPTIONS = [
     '"every Close call returns" on the implementation is a watchdog (CloseTimeout + 4 s); "Close times out although nothing runs" is judged structurally (a subscriber that was never asked to close), never by wall-clock alone',
@@ -279,6 +280,7 @@ def classify(res, scs, mapped, reps, mons):
         res.count('subscriber honours ctx' if sc['handlers'][0]['honour'] else 'subscriber ignores ctx')
         if sc['cancel']: res.count('with context cancel')
         if sc['second_close']: res.count('with second Close')
+        if sc.get('unstarted'): res.count('with a handler added but never started')
         res.count('hook events', len(sc['events'])); res.count('model labels replayed', len(mp.labels)); res.count('api events', len(mp.hist))
         res.count('Close calls', len(sc['calls'])); res.count('Close calls returning an error', sum(1 for c in sc['calls'] if c['err']))
         parked = sum(r['parked'] for r in sc['rules']); res.count('goroutines parked by a rule', parked)
@@ -297,6 +299,8 @@ def classify(res, scs, mapped, reps, mons):
             res.mismatches.append(dict(kind='Router/Close.v: the replayed schedule panics in the model', case=case))
         if sc.get('panics'):
             res.violations.append(dict(signature='C06/panic', what='panic in Run/Close: %s' % sc['panics'][:2], case=readable(sc, mp)))
+        if sc.get('w1_stuck'):
+            res.violations.append(dict(signature='C06/close-timeout-handlersWg-never-zero(D16)', what='Close returned a timeout error and its wait for the handler loops never ends although every handler loop has ended: handlersWg still counts a handler that was added but never started', case=readable(sc, mp)))
         for h in sc.get('hung') or []:
             res.violations.append(dict(signature='C06/close-hangs-beyond-CloseTimeout' if h.startswith('Close hangs') else 'C06/never-returns', what=h, case=readable(sc, mp)))
         seen = set()
